@@ -957,3 +957,28 @@ def _m_vals_groups(mod):
         return False
 
     return mod if replace_in_func(mod, "Generator.get_integer", edit) else None
+
+
+@SPEC.mutant("residual of `0 = expr` is expr", GEN, "R11.16", "store #")
+def _m_zero_lhs(mod):
+    def edit(fn):
+        for i, st in enumerate(fn.body):
+            if isinstance(st, ast.Assign) and norm(st.targets[0]) == "self.src[tree]":
+                fn.body[i] = ast.parse("if src_left.is_zero():\n    self.src[tree] = src_right\nelse:\n    self.src[tree] = src_left - src_right").body[0]
+                return True
+        return False
+
+    return mod if replace_in_func(mod, "Generator.exitEquation", edit) else None
+
+
+@SPEC.mutant("if-statement branches blended arithmetically", GEN, "R11.15", "only selects")
+def _m_blend(mod):
+    def edit(fn):
+        for st in ast.walk(fn):
+            if isinstance(st, ast.Assign) and isinstance(st.value, ast.Call) and norm(st.value.func) == "ca.if_else" and len(st.value.args) >= 3:
+                c, a, b = [norm(x) for x in st.value.args[:3]]
+                st.value = ast.parse("(%s) * (%s) + (1 - (%s)) * (%s)" % (c, a, c, b), mode="eval").body
+                return True
+        return False
+
+    return mod if replace_in_func(mod, "Generator.exitIfStatement", edit) else None
